@@ -28,7 +28,7 @@ func init() {
 		Assumptions: []string{"generic instantiations are not distinguished (the generic body is analysed once)", "container/list behaves as documented"},
 		Tech:        "static analysis: lock-state dataflow, structural pairing (must-pass-through both ways), guarded-by-condition and per-implementation Admit-populates-what-Access/Remove-index contract on the SSA of the generic bodies",
 		NeedU1:      true,
-		Rules:       []func(*Ctx){ruleC15Lock, ruleC15Bijection, ruleC15Bounded, ruleC15CallbackExactlyOnce, ruleC15AdmitRegisters, ruleC15RegistrationFollowsSegment, ruleC15SegmentFlagFollowsList, ruleC15ListEndsNonEmpty, ruleC15NoReentry, ruleC15RemoveUnlinks, ruleC15RelinkIsAMove, ruleC15ElementRecorded, ruleC15SegmentMoveConserves, ruleC15RemovalNotifies, ruleC15VictimNonNil, ruleC15SetStoresValue, ruleC15SetStampsExpiration, ruleC15ExpirationWrittenOnlyBySet, ruleC15ValuesAreOpaque, ruleC15VictimEnd, ruleC15AccessRefreshes, ruleC15SegmentOpsMatchFlag, ruleC15LFUOrderedList, ruleC15ExpiryEvicts, ruleC15LFUBucket, ruleC15LFUBucketImmutable, ruleC15LookupUseAtomic, ruleC15PolicySelection, ruleC15EventLoopLockFree, lockBalancedRule("C15", 8, lockDomSpec{pkgCache, "cache", "mux"}), noWriteToNilledMapRule("C15", pkgCache), nilContradictionRule("C15", false, "github.com/godaddy/asherah/go/appencryption/pkg/cache")},
+		Rules:       []func(*Ctx){ruleC15Lock, ruleC15Bijection, ruleC15Bounded, ruleC15CallbackExactlyOnce, ruleC15AdmitRegisters, ruleC15RegistrationFollowsSegment, ruleC15SegmentFlagFollowsList, ruleC15ListEndsNonEmpty, ruleC15NoReentry, ruleC15RemoveUnlinks, ruleC15RelinkIsAMove, ruleC15ElementRecorded, ruleC15SegmentMoveConserves, ruleC15RemovalNotifies, ruleC15VictimNonNil, ruleC15SetStoresValue, ruleC15SetStampsExpiration, ruleC15ExpirationWrittenOnlyBySet, ruleC15ValuesAreOpaque, ruleC15ReflectAccessorMatchesKind, ruleC15CallbackBoundAtBuild, ruleC15VictimEnd, ruleC15AccessRefreshes, ruleC15SegmentOpsMatchFlag, ruleC15LFUOrderedList, ruleC15ExpiryEvicts, ruleC15LFUBucket, ruleC15LFUBucketImmutable, ruleC15LookupUseAtomic, ruleC15PolicySelection, ruleC15EventLoopLockFree, lockBalancedRule("C15", 8, lockDomSpec{pkgCache, "cache", "mux"}), noWriteToNilledMapRule("C15", pkgCache), nilContradictionRule("C15", false, "github.com/godaddy/asherah/go/appencryption/pkg/cache")},
 	})
 }
 
@@ -322,7 +322,7 @@ func ruleC15CallbackExactlyOnce(c *Ctx) {
 			// guarded by event.event == evictItem (const 0)
 			g := false
 			for _, fct := range factsAt(i.Block()) {
-				if b, ok := fct.V.(*ssa.BinOp); ok && b.Op == token.EQL && fct.True {
+				if b, ok := fct.V.(*ssa.BinOp); ok && ((b.Op == token.EQL && fct.True) || (b.Op == token.NEQ && !fct.True)) {
 					if k, isC := constOf(b.Y); isC && k.ExactString() == "0" {
 						if _, fld, isF := fieldAccess(strip(b.X)); isF && fld == "event" {
 							g = true
@@ -360,7 +360,7 @@ func ruleC15CallbackExactlyOnce(c *Ctx) {
 		ok := false
 		allInstrs(cl, func(i ssa.Instruction) {
 			if g := staticCallee(i); g != nil && g.Name() == "shutdown" {
-				ok = guardedBy(i, false, sizePositive)
+				ok = afterDrain(i)
 			}
 		})
 		c.check(ok, "cache.Close/shutdown-after-drain", u.pos(cl.Pos()), "shutdown only after the drain loop exited", "the event goroutine is shut down before all entries were drained: their callbacks are lost")
